@@ -10,12 +10,14 @@
 package driver
 
 import (
+	"bytes"
 	"crypto/sha256"
 	"encoding/hex"
 	"encoding/json"
 	"flag"
 	"fmt"
 	"hash/fnv"
+	"io"
 	"math/rand"
 	"os"
 	"os/exec"
@@ -503,6 +505,37 @@ type childRun struct {
 	logPath string
 	raceLog string
 	dur     time.Duration
+	// raceFlood: the race detector's log of this child outgrew raceLogCap and the child was stopped; what had been
+	// logged (and the child's last periodic result) is judged, the early end itself is no infrastructure failure
+	raceFlood bool
+	races     []raceReport
+	racesRead bool
+}
+
+// A tree that really has a data race on a hot path makes the detector write gigabytes (seen: 2.3 GB per shard,
+// 33 GB per run, and a parent that needed 25 GB to read them). The first reports already decide the verdict.
+const (
+	raceLogCap     = 48 << 20 // bytes of race log per child after which the child is stopped
+	raceLogReadCap = 8 << 20  // bytes the parent reads of each log file
+	raceReportCap  = 4000     // reports parsed per child
+)
+
+func (j *childRun) raceReports() []raceReport {
+	if !j.racesRead {
+		j.races, j.racesRead = parseRaceLogs(j.raceLog), true
+	}
+	return j.races
+}
+
+func raceLogSize(prefix string) int64 {
+	files, _ := filepath.Glob(prefix + ".*")
+	var n int64
+	for _, f := range files {
+		if st, err := os.Stat(f); err == nil {
+			n += st.Size()
+		}
+	}
+	return n
 }
 
 func runParent(spec Spec, tier string, seed int64, bins, replay string) int {
@@ -662,7 +695,7 @@ func runParent(spec Spec, tier string, seed int64, bins, replay string) int {
 			}
 		}
 		// race reports
-		for _, rr := range parseRaceLogs(j.raceLog) {
+		for _, rr := range j.raceReports() {
 			observed["race_reports"]++
 			f1, f2 := rr.frames[0], rr.frames[1]
 			if !rr.repo {
@@ -683,6 +716,8 @@ func runParent(spec Spec, tier string, seed int64, bins, replay string) int {
 		case j.timeout:
 			infra = append(infra, fmt.Sprintf("shard %d/%s: wall-clock watchdog (%s) fired — inconclusive, log %s", j.shard, j.variant, timeout, j.logPath))
 			keepWork = true
+		case j.raceFlood:
+			observed["shards_stopped_after_a_flood_of_race_reports"]++
 		case r == nil || !r.Done:
 			// the child died: a crash inside the code under test is a violation with the log as witness
 			tail := tailFile(j.logPath, 6000)
@@ -695,7 +730,7 @@ func runParent(spec Spec, tier string, seed int64, bins, replay string) int {
 			} else {
 				vio[v.key()] = v
 			}
-		case j.exit != 0 && len(parseRaceLogs(j.raceLog)) == 0:
+		case j.exit != 0 && len(j.raceReports()) == 0:
 			infra = append(infra, fmt.Sprintf("shard %d/%s exit %d, log %s", j.shard, j.variant, j.exit, j.logPath))
 			keepWork = true
 		}
@@ -895,6 +930,24 @@ func runOne(spec Spec, j *childRun, bin, workDir, tier string, seed int64, nshar
 	}
 	done := make(chan error, 1)
 	go func() { done <- cmd.Wait() }()
+	flood := make(chan struct{})
+	stopWatch := make(chan struct{})
+	defer close(stopWatch)
+	go func() {
+		tk := time.NewTicker(500 * time.Millisecond)
+		defer tk.Stop()
+		for {
+			select {
+			case <-stopWatch:
+				return
+			case <-tk.C:
+				if raceLogSize(j.raceLog) > raceLogCap {
+					close(flood)
+					return
+				}
+			}
+		}
+	}()
 	select {
 	case err := <-done:
 		if err != nil {
@@ -903,6 +956,10 @@ func runOne(spec Spec, j *childRun, bin, workDir, tier string, seed int64, nshar
 				j.exit = ee.ExitCode()
 			}
 		}
+	case <-flood:
+		j.raceFlood = true
+		syscall.Kill(-cmd.Process.Pid, syscall.SIGKILL)
+		<-done
 	case <-time.After(timeout):
 		j.timeout = true
 		syscall.Kill(-cmd.Process.Pid, syscall.SIGQUIT)
@@ -922,6 +979,16 @@ func runOne(spec Spec, j *childRun, bin, workDir, tier string, seed int64, nshar
 	}
 }
 
+// readHead returns at most the first n bytes of a file.
+func readHead(path string, n int64) ([]byte, error) {
+	f, err := os.Open(path)
+	if err != nil {
+		return nil, err
+	}
+	defer f.Close()
+	return io.ReadAll(io.LimitReader(f, n))
+}
+
 type raceReport struct {
 	text   string
 	frames [2]string
@@ -936,13 +1003,24 @@ func parseRaceLogs(prefix string) []raceReport {
 	files, _ := filepath.Glob(prefix + ".*")
 	var out []raceReport
 	for _, f := range files {
-		b, err := os.ReadFile(f)
+		b, err := readHead(f, raceLogReadCap)
 		if err != nil {
 			continue
 		}
-		for _, blk := range strings.Split(string(b), "==================") {
+		if int64(len(b)) >= raceLogReadCap {
+			// cut in the middle of a report (or the writer was killed): the incomplete tail is not judged
+			if i := bytes.LastIndex(b, []byte("==================")); i >= 0 {
+				b = b[:i]
+			}
+		}
+		blks := strings.Split(string(b), "==================")
+		// a report is closed by a separator line: whatever follows the last separator is incomplete (writer killed)
+		for _, blk := range blks[:len(blks)-1] {
 			if !strings.Contains(blk, "WARNING: DATA RACE") {
 				continue
+			}
+			if len(out) >= raceReportCap {
+				return out
 			}
 			rr := raceReport{text: strings.TrimSpace(blk)}
 			if len(rr.text) > 6000 {
